@@ -10,6 +10,7 @@ theorem inv2_wstep (st st' : St) (w : Wk) (pc : WPc) (e : Env) (h : Inv1 st) (h2
   | idle => cases e <;> crunch2
   | sTake s => crunch2
   | sDis s c => simp [hpc, wHolds] at hlw hww; crunch2
+  | fOr s t => crunch2
   | fTake s t => crunch2
   | xio c => crunch2
   | xtake s => crunch2
